@@ -94,7 +94,7 @@ def counter_step(Lc, item):
     return C.const(i, e, item), C.where(asg[0][0])
 
 
-def encrypt_chunks_items(S, lib_cs):
+def encrypt_chunks_items(S):
     item = "encrypt.rs:encrypt_chunks"
     C = S.crypto
     F = S.fn(C, "encrypt_chunks", item)
@@ -142,75 +142,83 @@ def encrypt_chunks_items(S, lib_cs):
         put("enc_hdr_%s_hi" % k, hi, pat, w)
         put("enc_hdr_%s_be" % k, be, pat, w)
         put("enc_hdr_%s_width" % k, width, pat, w)
-    # counter: initial value and step
-    _, _, _, _, val, Lc, _ = fields["ctr"]
-    put("enc_counter_init", val.value, "role:initial value of the counter written into the header", Lc.where())
-    st, w = counter_step(Lc, item)
-    put("enc_counter_step", st, "role:`<counter> += N` of encrypt_chunks", w)
-    # flag values
-    _, _, _, _, val, Lf, _ = fields["flag"]
-    V = val.ctx
-    ca, cb = val.cond
-    neg = V.T[ca].s == "!"
-    co = V.origin(ca + (1 if neg else 0), cb)
-    Ld = co.deflet()
-    need(co.kind == "bool" and Ld is not None and Ld.mut and co.value is False,
-         item + ":flag condition `%s` is not a mutable bool that starts false" % V.text(ca, cb))
-    tv, ev = V.const(val.then[0], val.then[1], item), V.const(val.els[0], val.els[1], item)
-    if neg:
-        tv, ev = ev, tv
-    w = Lf.where() if Lf else V.where(ca)
-    put("enc_flag_last", tv, "role:value of the flag field when <done> holds", w)
-    put("enc_flag_more", ev, "role:value of the flag field otherwise", w)
-    # length field: <n read> as u32
-    _, _, _, _, val, Ll, _ = fields["len"]
     seal = F.one_call("chapoly_encrypt_noise", item, count=1)
     need(len(seal.args) == 4, item + ":chapoly_encrypt_noise arity")
-    body = seal.origin(3)
-    need(body.kind == "slice", item + ":sealed data is not a slice")
-    blo, bhi = slice_bounds(body, item)
-    cast_ok = 0
-    same = 0
-    if val.kind == "cast" and val.ty == "u32":
-        inner = val.ctx.lin(val.inner_rng[0], val.inner_rng[1], item)
-        cast_ok = 1
-        same = 1 if (bhi is not None and inner == bhi and blo == Lin(0)) else 0
-    w = Ll.where() if Ll else val.ctx.where(val.a)
-    put("enc_len_cast_u32", cast_ok, "role:length field = <count> as u32", w)
-    put("enc_len_is_sealed_len", same, "role:the count in the length field is the upper bound of the sealed slice", w)
-    # the count is the result of <src>.read(..)
-    hi_o = body.ctx.origin(body.hi[0], body.hi[1])
-    put("enc_len_is_read_result", 1 if (hi_o.kind == "method" and hi_o.name == "read" and hi_o.base.kind == "param"
-                                        and hi_o.base.idx == 0) else 0,
-        "role:the count is what <plaintext>.read returned", w)
+    La = None
+    with S.section(item + ":counter"):
+        # counter: initial value and step
+        _, _, _, _, val, Lc, _ = fields["ctr"]
+        put("enc_counter_init", val.value, "role:initial value of the counter written into the header", Lc.where())
+        st, w = counter_step(Lc, item)
+        put("enc_counter_step", st, "role:`<counter> += N` of encrypt_chunks", w)
+    with S.section(item + ":flag values"):
+        # flag values
+        _, _, _, _, val, Lf, _ = fields["flag"]
+        V = val.ctx
+        ca, cb = val.cond
+        neg = V.T[ca].s == "!"
+        co = V.origin(ca + (1 if neg else 0), cb)
+        Ld = co.deflet()
+        need(co.kind == "bool" and Ld is not None and Ld.mut and co.value is False,
+             item + ":flag condition `%s` is not a mutable bool that starts false" % V.text(ca, cb))
+        tv, ev = V.const(val.then[0], val.then[1], item), V.const(val.els[0], val.els[1], item)
+        if neg:
+            tv, ev = ev, tv
+        w = Lf.where() if Lf else V.where(ca)
+        put("enc_flag_last", tv, "role:value of the flag field when <done> holds", w)
+        put("enc_flag_more", ev, "role:value of the flag field otherwise", w)
+    with S.section(item + ":length field"):
+        # length field: <n read> as u32
+        _, _, _, _, val, Ll, _ = fields["len"]
+        body = seal.origin(3)
+        need(body.kind == "slice", item + ":sealed data is not a slice")
+        blo, bhi = slice_bounds(body, item)
+        cast_ok = 0
+        same = 0
+        if val.kind == "cast" and val.ty == "u32":
+            inner = val.ctx.lin(val.inner_rng[0], val.inner_rng[1], item)
+            cast_ok = 1
+            same = 1 if (bhi is not None and inner == bhi and blo == Lin(0)) else 0
+        w = Ll.where() if Ll else val.ctx.where(val.a)
+        put("enc_len_cast_u32", cast_ok, "role:length field = <count> as u32", w)
+        put("enc_len_is_sealed_len", same, "role:the count in the length field is the upper bound of the sealed slice", w)
+        # the count is the result of <src>.read(..)
+        hi_o = body.ctx.origin(body.hi[0], body.hi[1])
+        put("enc_len_is_read_result", 1 if (hi_o.kind == "method" and hi_o.name == "read" and hi_o.base.kind == "param"
+                                            and hi_o.base.idx == 0) else 0,
+            "role:the count is what <plaintext>.read returned", w)
 
-    # authenticated data
-    oa = seal.origin(2)
-    La = oa.deflet()
-    need(La is not None, item + ":authenticated data is not a local buffer")
-    ad = ad_layout(F, La, oa, item, "enc")
-    wa = La.where()
-    pat = "role:buffer passed as ad to chapoly_encrypt_noise in encrypt_chunks"
-    put("enc_ad_extra", ad["extra"], pat, wa)
-    put("enc_ad_flag_off", ad["flag_off"], pat, wa)
-    put("enc_ad_flag_end", ad["flag_end"], pat, wa)
-    put("enc_ad_len_off", ad["len_off"], pat, wa)
-    put("enc_ad_len_end", ad["len_end"], pat, wa)
-    fl = ad["flag_src"].deflet()
-    ll = ad["len_src"].deflet()
-    shares = fl is not None and ll is not None and fl is srclets["flag"] and ll is srclets["len"]
-    put("enc_ad_shares_header_bytes", 1 if shares else 0, "role:ad pieces are the byte arrays copied into the header", wa)
-    # roles
-    R = RoleCtx(S, F, CH_P, item, bufroles={La: "RAuthData", Lh: "RHeader"},
-                callroles={"chapoly_encrypt_noise": "RSealed"})
-    put("enc_seal_roles", R.roles_of_call(seal, 4), "role:arguments of chapoly_encrypt_noise in encrypt_chunks", seal.where())
-    put("enc_chunk_sink_roles", sink_sequence(F, R, item), "role:write_all / flush calls of encrypt_chunks in order", ws[0].where())
-    # read buffer = chunk size
-    rs = F.mcalls("read")
-    need(len(rs) == 2, "%s:%d read calls, expected 2" % (item, len(rs)))
-    ob = rs[0].origin(0)
-    ok = ob.kind == "fill" and ob.size == Lin(0, {"p4": 1})
-    put("enc_read_buf_is_chunk_size", 1 if ok else 0, "role:buffer given to <plaintext>.read", where_of(F, ob))
+    with S.section(item + ":authenticated data"):
+        # authenticated data
+        oa = seal.origin(2)
+        La = oa.deflet()
+        need(La is not None, item + ":authenticated data is not a local buffer")
+        ad = ad_layout(F, La, oa, item, "enc")
+        wa = La.where()
+        pat = "role:buffer passed as ad to chapoly_encrypt_noise in encrypt_chunks"
+        put("enc_ad_extra", ad["extra"], pat, wa)
+        put("enc_ad_flag_off", ad["flag_off"], pat, wa)
+        put("enc_ad_flag_end", ad["flag_end"], pat, wa)
+        put("enc_ad_len_off", ad["len_off"], pat, wa)
+        put("enc_ad_len_end", ad["len_end"], pat, wa)
+        fl = ad["flag_src"].deflet()
+        ll = ad["len_src"].deflet()
+        shares = fl is not None and ll is not None and fl is srclets["flag"] and ll is srclets["len"]
+        put("enc_ad_shares_header_bytes", 1 if shares else 0, "role:ad pieces are the byte arrays copied into the header", wa)
+    with S.section(item + ":call roles"):
+        # roles
+        need(La is not None, item + ":needs the authenticated-data buffer, which was not located")
+        R = RoleCtx(S, F, CH_P, item, bufroles={La: "RAuthData", Lh: "RHeader"},
+                    callroles={"chapoly_encrypt_noise": "RSealed"})
+        put("enc_seal_roles", R.roles_of_call(seal, 4), "role:arguments of chapoly_encrypt_noise in encrypt_chunks", seal.where())
+        put("enc_chunk_sink_roles", sink_sequence(F, R, item), "role:write_all / flush calls of encrypt_chunks in order", ws[0].where())
+    with S.section(item + ":read buffer"):
+        # read buffer = chunk size
+        rs = F.mcalls("read")
+        need(len(rs) == 2, "%s:%d read calls, expected 2" % (item, len(rs)))
+        ob = rs[0].origin(0)
+        ok = ob.kind == "fill" and ob.size == Lin(0, {"p4": 1})
+        put("enc_read_buf_is_chunk_size", 1 if ok else 0, "role:buffer given to <plaintext>.read", where_of(F, ob))
 
 
 def decrypt_chunks_items(S):
@@ -277,141 +285,185 @@ def decrypt_chunks_items(S):
         put("dec_hdr_%s_width" % k, v["width"], pat, w)
     put("dec_len_gt_chunk_size_is_error", 1 if len_op == ">" else 0,
         "role:`if <length field> > <chunk_size>` of decrypt_chunks", len_v["call"].where())
-    # body read: [..len + N]
-    ob = res[1].origin(0)
-    need(ob.kind == "slice", item + ":second read_exact does not fill a slice")
-    lo, hi = slice_bounds(ob, item)
-    need(lo == Lin(0) and hi is not None and hi - Lin(hi.c) == F.lin_of_let(len_v["let"]),
-         item + ":second read_exact is not [..<length field> + constant]")
-    put("dec_ct_read_extra", hi.c, "role:second read_exact of decrypt_chunks reads <length field> + N bytes", res[1].where())
-    need(ob.base.kind == "fill" and ob.base.size.t == {"p4": 1}, item + ":buffer is not vec![0; <chunk_size> + constant]")
-    put("dec_buf_extra", ob.base.size.c, "role:buffer of decrypt_chunks holds <chunk_size> + N bytes", where_of(F, ob.base))
-    # open call
     op = F.one_call("chapoly_decrypt_noise", item, count=1)
     need(len(op.args) == 4, item + ":chapoly_decrypt_noise arity")
-    oa = op.origin(2)
-    La = oa.deflet()
-    need(La is not None, item + ":authenticated data is not a local buffer")
-    ad = ad_layout(F, La, oa, item, "dec")
-    wa = La.where()
-    pat = "role:buffer passed as ad to chapoly_decrypt_noise in decrypt_chunks"
-    put("dec_ad_extra", ad["extra"], pat, wa)
-    put("dec_ad_flag_off", ad["flag_off"], pat, wa)
-    put("dec_ad_flag_end", ad["flag_end"], pat, wa)
-    put("dec_ad_len_off", ad["len_off"], pat, wa)
-    put("dec_ad_len_end", ad["len_end"], pat, wa)
-    fl = ad["flag_src"].deflet()
-    ll = ad["len_src"].deflet()
-    shares = fl is not None and ll is not None and fl is flag_v["bytes_let"] and ll is len_v["bytes_let"]
-    put("dec_ad_shares_header_bytes", 1 if shares else 0, "role:ad pieces are the byte arrays taken from the header", wa)
-    # sealed data = the bytes just read
-    oc = op.origin(3)
-    same = 0
-    if oc.kind == "slice" and oc.base.deflet() is ob.base.deflet():
-        l2, h2 = slice_bounds(oc, item)
-        same = 1 if (l2 == lo and h2 == hi) else 0
-    put("dec_open_is_what_was_read", same, "role:ciphertext given to chapoly_decrypt_noise = slice filled by read_exact", op.where())
-    # counter
-    co = op.origin(1)
-    Lc = co.deflet()
-    need(co.kind == "const_int" and Lc is not None and Lc.mut, item + ":chunk counter")
-    put("dec_counter_init", co.value, "role:initial value of the counter given to chapoly_decrypt_noise", Lc.where())
-    st, w = counter_step(Lc, item)
-    put("dec_counter_step", st, "role:`<counter> += N` of decrypt_chunks", w)
-    R = RoleCtx(S, F, CH_P, item, bufroles={La: "RAuthData", Lh: "RHeader"},
-                callroles={"chapoly_decrypt_noise": "RPlaintext"})
-    put("dec_open_roles", R.roles_of_call(op, 4), "role:arguments of chapoly_decrypt_noise in decrypt_chunks", op.where())
-    put("dec_chunk_sink_roles", sink_sequence(F, R, item), "role:write_all / flush calls of decrypt_chunks in order", op.where())
-    # end probe
-    rs = F.mcalls("read")
-    need(len(rs) == 1 and len(rs[0].args) == 1, "%s:%d read calls, expected 1" % (item, len(rs)))
-    po = rs[0].origin(0)
-    put("dec_probe_len", zero_fill_size(F, po, item + ":end probe"), "role:buffer of the single <ciphertext>.read of decrypt_chunks", rs[0].where())
+    ob = lo = hi = La = None
+    with S.section(item + ":body read"):
+        # body read: [..len + N]
+        ob = res[1].origin(0)
+        need(ob.kind == "slice", item + ":second read_exact does not fill a slice")
+        lo, hi = slice_bounds(ob, item)
+        need(lo == Lin(0) and hi is not None and hi - Lin(hi.c) == F.lin_of_let(len_v["let"]),
+             item + ":second read_exact is not [..<length field> + constant]")
+        put("dec_ct_read_extra", hi.c, "role:second read_exact of decrypt_chunks reads <length field> + N bytes", res[1].where())
+        need(ob.base.kind == "fill" and ob.base.size.t == {"p4": 1}, item + ":buffer is not vec![0; <chunk_size> + constant]")
+        put("dec_buf_extra", ob.base.size.c, "role:buffer of decrypt_chunks holds <chunk_size> + N bytes", where_of(F, ob.base))
+    with S.section(item + ":authenticated data"):
+        # authenticated data of the open call
+        oa = op.origin(2)
+        La = oa.deflet()
+        need(La is not None, item + ":authenticated data is not a local buffer")
+        ad = ad_layout(F, La, oa, item, "dec")
+        wa = La.where()
+        pat = "role:buffer passed as ad to chapoly_decrypt_noise in decrypt_chunks"
+        put("dec_ad_extra", ad["extra"], pat, wa)
+        put("dec_ad_flag_off", ad["flag_off"], pat, wa)
+        put("dec_ad_flag_end", ad["flag_end"], pat, wa)
+        put("dec_ad_len_off", ad["len_off"], pat, wa)
+        put("dec_ad_len_end", ad["len_end"], pat, wa)
+        fl = ad["flag_src"].deflet()
+        ll = ad["len_src"].deflet()
+        shares = fl is not None and ll is not None and fl is flag_v["bytes_let"] and ll is len_v["bytes_let"]
+        put("dec_ad_shares_header_bytes", 1 if shares else 0, "role:ad pieces are the byte arrays taken from the header", wa)
+    with S.section(item + ":sealed data"):
+        # sealed data = the bytes just read
+        need(ob is not None and hi is not None, item + ":needs the body read, which was not located")
+        oc = op.origin(3)
+        same = 0
+        if oc.kind == "slice" and oc.base.deflet() is ob.base.deflet():
+            l2, h2 = slice_bounds(oc, item)
+            same = 1 if (l2 == lo and h2 == hi) else 0
+        put("dec_open_is_what_was_read", same, "role:ciphertext given to chapoly_decrypt_noise = slice filled by read_exact", op.where())
+    with S.section(item + ":counter"):
+        # counter
+        co = op.origin(1)
+        Lc = co.deflet()
+        need(co.kind == "const_int" and Lc is not None and Lc.mut, item + ":chunk counter")
+        put("dec_counter_init", co.value, "role:initial value of the counter given to chapoly_decrypt_noise", Lc.where())
+        st, w = counter_step(Lc, item)
+        put("dec_counter_step", st, "role:`<counter> += N` of decrypt_chunks", w)
+    with S.section(item + ":call roles"):
+        need(La is not None, item + ":needs the authenticated-data buffer, which was not located")
+        R = RoleCtx(S, F, CH_P, item, bufroles={La: "RAuthData", Lh: "RHeader"},
+                    callroles={"chapoly_decrypt_noise": "RPlaintext"})
+        put("dec_open_roles", R.roles_of_call(op, 4), "role:arguments of chapoly_decrypt_noise in decrypt_chunks", op.where())
+        put("dec_chunk_sink_roles", sink_sequence(F, R, item), "role:write_all / flush calls of decrypt_chunks in order", op.where())
+    with S.section(item + ":end probe"):
+        # end probe
+        rs = F.mcalls("read")
+        need(len(rs) == 1 and len(rs[0].args) == 1, "%s:%d read calls, expected 1" % (item, len(rs)))
+        po = rs[0].origin(0)
+        put("dec_probe_len", zero_fill_size(F, po, item + ":end probe"), "role:buffer of the single <ciphertext>.read of decrypt_chunks", rs[0].where())
 
 
-def files_items(S):
+def known_magics(S):
+    return {tuple(S.val("prologue")): "RPrologue", tuple(S.val("pass_file_magic")): "RMagic"}
+
+
+def read_buf(F, res, k, item, oldname):
+    def role():
+        o = res[k].origin(0)
+        return zero_fill_size(F, o, item), where_of(F, o)
+    return (("role:buffer of read_exact #%d in %s" % (k + 1, F.fn.name), role),
+            ("name:let mut %s = [0u8; N]" % oldname, lambda: named_let_fill(F, oldname, item)))
+
+
+def magic_items(S):
     C = S.crypto
     # ---- the two magics, by role: what the first write_all of key_encrypt / pass_encrypt writes
-    prologue = S.item("prologue", ("role:bytes of the first write_all in key_encrypt", lambda: first_write_bytes(S, "key_encrypt", "encrypt.rs:key_encrypt:first write")),
-                      ("name:const PROLOGUE", lambda: named_const_bytes(S, C, "PROLOGUE", "encrypt.rs:PROLOGUE")))
-    magic = S.item("pass_file_magic", ("role:bytes of the first write_all in pass_encrypt", lambda: first_write_bytes(S, "pass_encrypt", "encrypt.rs:pass_encrypt:first write")),
-                   ("name:const PASS_FILE_MAGIC", lambda: named_const_bytes(S, C, "PASS_FILE_MAGIC", "encrypt.rs:PASS_FILE_MAGIC")))
-    known = {tuple(prologue): "RPrologue", tuple(magic): "RMagic"}
+    S.try_item("prologue", ("role:bytes of the first write_all in key_encrypt", lambda: first_write_bytes(S, "key_encrypt", "encrypt.rs:key_encrypt:first write")),
+               ("name:const PROLOGUE", lambda: named_const_bytes(S, C, "PROLOGUE", "encrypt.rs:PROLOGUE")))
+    S.try_item("pass_file_magic", ("role:bytes of the first write_all in pass_encrypt", lambda: first_write_bytes(S, "pass_encrypt", "encrypt.rs:pass_encrypt:first write")),
+               ("name:const PASS_FILE_MAGIC", lambda: named_const_bytes(S, C, "PASS_FILE_MAGIC", "encrypt.rs:PASS_FILE_MAGIC")))
 
-    # ---- key_encrypt
+
+def key_encrypt_items(S):
+    C = S.crypto
     item = "encrypt.rs:key_encrypt"
     F = S.fn(C, "key_encrypt", item)
-    R = RoleCtx(S, F, KE_P, item, known_bytes=known)
-    hk = F.one_call("hkdf_sha256", item + ":hkdf", count=1)
-    need(len(hk.args) == 4, item + ":hkdf arity")
-    w = hk.where()
-    pat = "role:hkdf_sha256 call of key_encrypt"
-    S.put("enc_hkdf_salt_empty", 1 if is_empty_bytes(hk.origin(0)) else 0, pat, w)
-    S.put("enc_hkdf_len", hk.const(3, item + ":hkdf len"), pat, w)
-    S.put("enc_hkdf_roles", R.roles_of_call(hk, 4), pat, w)
-    ec = F.one_call("encrypt_chunks", item + ":encrypt_chunks", count=1)
-    need(len(ec.args) == 5, item + ":encrypt_chunks arity")
+    # the chunk size is located first: it does not depend on the magics
+    with S.section(item + ":encrypt_chunks call:chunk size"):
+        ec = F.one_call("encrypt_chunks", item + ":encrypt_chunks", count=1)
+        need(len(ec.args) == 5, item + ":encrypt_chunks arity")
 
-    def cs_role():
-        o = ec.origin(4)
-        return ec.const(4, item + ":chunk size"), where_of(F, o)
-    cs = S.item("lib_chunk_size", ("role:chunk-size argument of encrypt_chunks in key_encrypt", cs_role),
-                ("name:const CHUNK_SIZE", lambda: named_const_int(S, C, "CHUNK_SIZE", "lib.rs:CHUNK_SIZE")))
-    w = ec.where()
-    pat = "role:encrypt_chunks call of key_encrypt"
-    S.put("enc_key_aad_empty", 1 if is_empty_bytes(ec.origin(3)) else 0, pat, w)
-    S.put("enc_key_cs_is_const", 1 if (ec.is_const_expr(4) and ec.const(4, item) == cs) else 0, pat, w)
-    S.put("enc_key_chunks_roles", R.roles_of_call(ec, 5), pat, w)
-    ne = F.one_call("noise_encrypt", item + ":noise_encrypt", count=1)
-    S.put("enc_noise_roles", R.roles_of_call(ne, 7), "role:noise_encrypt call of key_encrypt", ne.where())
-    S.put("enc_key_header_roles", sink_sequence(F, R, item), "role:write_all / flush calls of key_encrypt in order", ne.where())
-    # fresh payload key
-    po = ne.origin(6)
-    need(po.kind == "ifelse", item + ":payload key is not `if let Some(..) = <param> {..} else {fresh}`")
-    sr = po.ctx.calls("secure_random", po.els[0], po.els[1])
-    need(len(sr) == 1 and len(sr[0].args) == 1, item + ":fresh payload key")
-    S.put("enc_fresh_payload_len", sr[0].const(0, item), "role:secure_random(N) for a missing payload key in key_encrypt", sr[0].where())
+        def cs_role():
+            o = ec.origin(4)
+            return ec.const(4, item + ":chunk size"), where_of(F, o)
+        S.item("lib_chunk_size", ("role:chunk-size argument of encrypt_chunks in key_encrypt", cs_role),
+               ("name:const CHUNK_SIZE", lambda: named_const_int(S, C, "CHUNK_SIZE", "lib.rs:CHUNK_SIZE")))
+    R = RoleCtx(S, F, KE_P, item, known_bytes=known_magics(S))
+    with S.section(item + ":hkdf"):
+        hk = F.one_call("hkdf_sha256", item + ":hkdf", count=1)
+        need(len(hk.args) == 4, item + ":hkdf arity")
+        w = hk.where()
+        pat = "role:hkdf_sha256 call of key_encrypt"
+        S.put("enc_hkdf_salt_empty", 1 if is_empty_bytes(hk.origin(0)) else 0, pat, w)
+        S.put("enc_hkdf_len", hk.const(3, item + ":hkdf len"), pat, w)
+        S.put("enc_hkdf_roles", R.roles_of_call(hk, 4), pat, w)
+    with S.section(item + ":encrypt_chunks call"):
+        cs = S.val("lib_chunk_size")
+        ec = F.one_call("encrypt_chunks", item + ":encrypt_chunks", count=1)
+        need(len(ec.args) == 5, item + ":encrypt_chunks arity")
+        w = ec.where()
+        pat = "role:encrypt_chunks call of key_encrypt"
+        S.put("enc_key_aad_empty", 1 if is_empty_bytes(ec.origin(3)) else 0, pat, w)
+        S.put("enc_key_cs_is_const", 1 if (ec.is_const_expr(4) and ec.const(4, item) == cs) else 0, pat, w)
+        S.put("enc_key_chunks_roles", R.roles_of_call(ec, 5), pat, w)
+    with S.section(item + ":noise_encrypt call"):
+        ne = F.one_call("noise_encrypt", item + ":noise_encrypt", count=1)
+        S.put("enc_noise_roles", R.roles_of_call(ne, 7), "role:noise_encrypt call of key_encrypt", ne.where())
+    with S.section(item + ":header writes"):
+        ne = F.one_call("noise_encrypt", item + ":noise_encrypt", count=1)
+        S.put("enc_key_header_roles", sink_sequence(F, R, item), "role:write_all / flush calls of key_encrypt in order", ne.where())
+    with S.section(item + ":fresh payload key"):
+        ne = F.one_call("noise_encrypt", item + ":noise_encrypt", count=1)
+        need(len(ne.args) == 7, item + ":noise_encrypt arity")
+        po = ne.origin(6)
+        need(po.kind == "ifelse", item + ":payload key is not `if let Some(..) = <param> {..} else {fresh}`")
+        sr = po.ctx.calls("secure_random", po.els[0], po.els[1])
+        need(len(sr) == 1 and len(sr[0].args) == 1, item + ":fresh payload key")
+        S.put("enc_fresh_payload_len", sr[0].const(0, item), "role:secure_random(N) for a missing payload key in key_encrypt", sr[0].where())
 
-    # ---- pass_encrypt
+
+def pass_encrypt_items(S):
+    C = S.crypto
     item = "encrypt.rs:pass_encrypt"
     F = S.fn(C, "pass_encrypt", item)
-    R = RoleCtx(S, F, PE_P, item, known_bytes=known)
-    sc = F.one_call("scrypt", item + ":scrypt", count=1)
-    need(len(sc.args) == 6, item + ":scrypt arity")
-    pat = "role:cost arguments of scrypt in pass_encrypt"
     names = ("SCRYPT_N", "SCRYPT_R", "SCRYPT_P")
-    costs = []
-    for k in range(3):
-        def th(k=k):
-            o = sc.origin(2 + k)
-            return sc.const(2 + k, item + ":scrypt cost"), where_of(F, o)
-        costs.append(S.item("lib_" + names[k].lower(), (pat, th),
-                            ("name:const " + names[k], lambda k=k: named_const_int(S, C, names[k], "lib.rs:" + names[k]))))
-    w = sc.where()
-    pat = "role:scrypt call of pass_encrypt"
-    S.put("enc_scrypt_args_const", 1 if all(sc.is_const_expr(2 + k) for k in range(3)) else 0, pat, w)
-    S.put("enc_scrypt_len", sc.const(5, item + ":scrypt len"), pat, w)
-    S.put("enc_scrypt_roles", R.roles_of_call(sc, 6), pat, w)
-    ec = F.one_call("encrypt_chunks", item + ":encrypt_chunks", count=1)
-    need(len(ec.args) == 5, item + ":encrypt_chunks arity")
-    w = ec.where()
-    pat = "role:encrypt_chunks call of pass_encrypt"
-    S.put("enc_pass_cs_is_const", 1 if (ec.is_const_expr(4) and ec.const(4, item) == cs) else 0, pat, w)
-    S.put("enc_pass_chunks_roles", R.roles_of_call(ec, 5), pat, w)
-    S.put("enc_pass_header_roles", sink_sequence(F, R, item), "role:write_all / flush calls of pass_encrypt in order", w)
-    ws = F.mcalls("write_all")
-    S.put("enc_kdf_before_header", 1 if (ws and sc.i_name < ws[0].i_name) else 0, "role:scrypt is called before the first write_all in pass_encrypt", sc.where())
-    # salt: [u8; N]
-    (nm, ta, tb) = F.fn.params[3]
-    T = F.T
-    need(T[ta].s == "[" and F.m[ta] == tb - 1, item + ":salt parameter is not an array")
-    parts = split_top(F.f, ta + 1, tb - 1, sep=";")
-    need(len(parts) == 2, item + ":salt type")
-    S.put("enc_salt_len", F.const(parts[1][0], parts[1][1], item + ":salt type"), "role:type [u8; N] of the salt parameter of pass_encrypt", F.where(ta))
+    with S.section(item + ":scrypt costs"):
+        sc = F.one_call("scrypt", item + ":scrypt", count=1)
+        need(len(sc.args) == 6, item + ":scrypt arity")
+        pat = "role:cost arguments of scrypt in pass_encrypt"
+        for k in range(3):
+            def th(k=k):
+                o = sc.origin(2 + k)
+                return sc.const(2 + k, item + ":scrypt cost"), where_of(F, o)
+            S.try_item("lib_" + names[k].lower(), (pat, th),
+                       ("name:const " + names[k], lambda k=k: named_const_int(S, C, names[k], "lib.rs:" + names[k])))
+    with S.section(item + ":salt type"):
+        # salt: [u8; N]
+        (nm, ta, tb) = F.fn.params[3]
+        T = F.T
+        need(T[ta].s == "[" and F.m[ta] == tb - 1, item + ":salt parameter is not an array")
+        parts = split_top(F.f, ta + 1, tb - 1, sep=";")
+        need(len(parts) == 2, item + ":salt type")
+        S.put("enc_salt_len", F.const(parts[1][0], parts[1][1], item + ":salt type"), "role:type [u8; N] of the salt parameter of pass_encrypt", F.where(ta))
+    R = RoleCtx(S, F, PE_P, item, known_bytes=known_magics(S))
+    with S.section(item + ":scrypt call"):
+        sc = F.one_call("scrypt", item + ":scrypt", count=1)
+        need(len(sc.args) == 6, item + ":scrypt arity")
+        w = sc.where()
+        pat = "role:scrypt call of pass_encrypt"
+        S.put("enc_scrypt_args_const", 1 if all(sc.is_const_expr(2 + k) for k in range(3)) else 0, pat, w)
+        S.put("enc_scrypt_len", sc.const(5, item + ":scrypt len"), pat, w)
+        S.put("enc_scrypt_roles", R.roles_of_call(sc, 6), pat, w)
+        ws = F.mcalls("write_all")
+        S.put("enc_kdf_before_header", 1 if (ws and sc.i_name < ws[0].i_name) else 0, "role:scrypt is called before the first write_all in pass_encrypt", sc.where())
+    with S.section(item + ":encrypt_chunks call"):
+        cs = S.val("lib_chunk_size")
+        ec = F.one_call("encrypt_chunks", item + ":encrypt_chunks", count=1)
+        need(len(ec.args) == 5, item + ":encrypt_chunks arity")
+        w = ec.where()
+        pat = "role:encrypt_chunks call of pass_encrypt"
+        S.put("enc_pass_cs_is_const", 1 if (ec.is_const_expr(4) and ec.const(4, item) == cs) else 0, pat, w)
+        S.put("enc_pass_chunks_roles", R.roles_of_call(ec, 5), pat, w)
+    with S.section(item + ":header writes"):
+        ec = F.one_call("encrypt_chunks", item + ":encrypt_chunks", count=1)
+        S.put("enc_pass_header_roles", sink_sequence(F, R, item), "role:write_all / flush calls of pass_encrypt in order", ec.where())
 
-    encrypt_chunks_items(S, cs)
 
-    # ---- valid_file_format
+def valid_file_format_items(S):
+    C = S.crypto
     item = "decrypt.rs:valid_file_format"
     F = S.fn(C, "valid_file_format", item)
 
@@ -440,72 +492,84 @@ def files_items(S):
                     return bytes_value(F, o, item + ":" + name), L.where()
             raise ExtractError(item + ":let " + name)
         return th
-    S.item("dec_asym_v1", ("role:bytes compared with <header> where valid_file_format returns AsymV1", fmt_role("AsymV1")),
-           ("name:let asym_v1", fmt_name("asym_v1")))
-    S.item("dec_pass_v1", ("role:bytes compared with <header> where valid_file_format returns PassV1", fmt_role("PassV1")),
-           ("name:let pass_v1", fmt_name("pass_v1")))
+    S.try_item("dec_asym_v1", ("role:bytes compared with <header> where valid_file_format returns AsymV1", fmt_role("AsymV1")),
+               ("name:let asym_v1", fmt_name("asym_v1")))
+    S.try_item("dec_pass_v1", ("role:bytes compared with <header> where valid_file_format returns PassV1", fmt_role("PassV1")),
+               ("name:let pass_v1", fmt_name("pass_v1")))
 
-    # ---- key_decrypt
+
+def key_decrypt_items(S):
+    C = S.crypto
     item = "decrypt.rs:key_decrypt"
     F = S.fn(C, "key_decrypt", item)
-    R = RoleCtx(S, F, KD_P, item, known_bytes=known, reads=["RPrologue", "RHandshakeMsg"])
-    res = F.mcalls("read_exact")
-    need(len(res) == 2, "%s:%d read_exact calls, expected 2" % (item, len(res)))
+    with S.section(item + ":read buffers"):
+        res = F.mcalls("read_exact")
+        need(len(res) == 2, "%s:%d read_exact calls, expected 2" % (item, len(res)))
+        S.try_item("dec_prologue_len", *read_buf(F, res, 0, item + ":prologue", "prologue"))
+        S.try_item("dec_handshake_len", *read_buf(F, res, 1, item + ":handshake_message", "handshake_message"))
+    R = RoleCtx(S, F, KD_P, item, known_bytes=known_magics(S), reads=["RPrologue", "RHandshakeMsg"])
+    with S.section(item + ":hkdf"):
+        hk = F.one_call("hkdf_sha256", item + ":hkdf", count=1)
+        need(len(hk.args) == 4, item + ":hkdf arity")
+        w = hk.where()
+        pat = "role:hkdf_sha256 call of key_decrypt"
+        S.put("dec_hkdf_salt_empty", 1 if is_empty_bytes(hk.origin(0)) else 0, pat, w)
+        S.put("dec_hkdf_len", hk.const(3, item + ":hkdf len"), pat, w)
+        S.put("dec_hkdf_roles", R.roles_of_call(hk, 4), pat, w)
+    with S.section(item + ":decrypt_chunks call"):
+        cs = S.val("lib_chunk_size")
+        dc = F.one_call("decrypt_chunks", item + ":decrypt_chunks", count=1)
+        need(len(dc.args) == 5, item + ":decrypt_chunks arity")
+        w = dc.where()
+        pat = "role:decrypt_chunks call of key_decrypt"
+        S.put("dec_key_aad_empty", 1 if is_empty_bytes(dc.origin(3)) else 0, pat, w)
+        S.put("dec_key_cs_is_const", 1 if (dc.is_const_expr(4) and dc.const(4, item) == cs) else 0, pat, w)
+        S.put("dec_key_chunks_roles", R.roles_of_call(dc, 5), pat, w)
+    with S.section(item + ":noise_decrypt call"):
+        nd = F.one_call("noise_decrypt", item + ":noise_decrypt", count=1)
+        S.put("dec_noise_roles", R.roles_of_call(nd, 4), "role:noise_decrypt call of key_decrypt", nd.where())
+    with S.section(item + ":valid_file_format call"):
+        vf = F.one_call("valid_file_format", item + ":valid_file_format", count=1)
+        S.put("dec_key_format_roles", R.roles_of_call(vf, 1), "role:valid_file_format call of key_decrypt", vf.where())
 
-    def read_buf(F, res, k, item, oldname):
-        def role():
-            o = res[k].origin(0)
-            return zero_fill_size(F, o, item), where_of(F, o)
-        return (("role:buffer of read_exact #%d in %s" % (k + 1, F.fn.name), role),
-                ("name:let mut %s = [0u8; N]" % oldname, lambda: named_let_fill(F, oldname, item)))
-    S.item("dec_prologue_len", *read_buf(F, res, 0, item + ":prologue", "prologue"))
-    S.item("dec_handshake_len", *read_buf(F, res, 1, item + ":handshake_message", "handshake_message"))
-    hk = F.one_call("hkdf_sha256", item + ":hkdf", count=1)
-    need(len(hk.args) == 4, item + ":hkdf arity")
-    w = hk.where()
-    pat = "role:hkdf_sha256 call of key_decrypt"
-    S.put("dec_hkdf_salt_empty", 1 if is_empty_bytes(hk.origin(0)) else 0, pat, w)
-    S.put("dec_hkdf_len", hk.const(3, item + ":hkdf len"), pat, w)
-    S.put("dec_hkdf_roles", R.roles_of_call(hk, 4), pat, w)
-    dc = F.one_call("decrypt_chunks", item + ":decrypt_chunks", count=1)
-    need(len(dc.args) == 5, item + ":decrypt_chunks arity")
-    w = dc.where()
-    pat = "role:decrypt_chunks call of key_decrypt"
-    S.put("dec_key_aad_empty", 1 if is_empty_bytes(dc.origin(3)) else 0, pat, w)
-    S.put("dec_key_cs_is_const", 1 if (dc.is_const_expr(4) and dc.const(4, item) == cs) else 0, pat, w)
-    S.put("dec_key_chunks_roles", R.roles_of_call(dc, 5), pat, w)
-    nd = F.one_call("noise_decrypt", item + ":noise_decrypt", count=1)
-    S.put("dec_noise_roles", R.roles_of_call(nd, 4), "role:noise_decrypt call of key_decrypt", nd.where())
-    vf = F.one_call("valid_file_format", item + ":valid_file_format", count=1)
-    S.put("dec_key_format_roles", R.roles_of_call(vf, 1), "role:valid_file_format call of key_decrypt", vf.where())
 
-    # ---- pass_decrypt
+def pass_decrypt_items(S):
+    C = S.crypto
     item = "decrypt.rs:pass_decrypt"
     F = S.fn(C, "pass_decrypt", item)
-    R = RoleCtx(S, F, PD_P, item, known_bytes=known, reads=["RMagic", "RSalt"])
-    res = F.mcalls("read_exact")
-    need(len(res) == 2, "%s:%d read_exact calls, expected 2" % (item, len(res)))
-    S.item("dec_magic_len", *read_buf(F, res, 0, item + ":pass_magic_num", "pass_magic_num"))
-    S.item("dec_salt_len", *read_buf(F, res, 1, item + ":salt", "salt"))
-    sc = F.one_call("scrypt", item + ":scrypt", count=1)
-    need(len(sc.args) == 6, item + ":scrypt arity")
-    w = sc.where()
-    pat = "role:scrypt call of pass_decrypt"
-    ok = all(sc.is_const_expr(2 + k) and sc.const(2 + k, item) == costs[k] for k in range(3))
-    S.put("dec_scrypt_args_const", 1 if ok else 0, pat, w)
-    S.put("dec_scrypt_len", sc.const(5, item + ":scrypt len"), pat, w)
-    S.put("dec_scrypt_roles", R.roles_of_call(sc, 6), pat, w)
-    dc = F.one_call("decrypt_chunks", item + ":decrypt_chunks", count=1)
-    need(len(dc.args) == 5, item + ":decrypt_chunks arity")
-    w = dc.where()
-    pat = "role:decrypt_chunks call of pass_decrypt"
-    S.put("dec_pass_cs_is_const", 1 if (dc.is_const_expr(4) and dc.const(4, item) == cs) else 0, pat, w)
-    S.put("dec_pass_chunks_roles", R.roles_of_call(dc, 5), pat, w)
-    vf = F.one_call("valid_file_format", item + ":valid_file_format", count=1)
-    S.put("dec_pass_format_roles", R.roles_of_call(vf, 1), "role:valid_file_format call of pass_decrypt", vf.where())
-
-    decrypt_chunks_items(S)
+    with S.section(item + ":read buffers"):
+        res = F.mcalls("read_exact")
+        need(len(res) == 2, "%s:%d read_exact calls, expected 2" % (item, len(res)))
+        S.try_item("dec_magic_len", *read_buf(F, res, 0, item + ":pass_magic_num", "pass_magic_num"))
+        S.try_item("dec_salt_len", *read_buf(F, res, 1, item + ":salt", "salt"))
+    R = RoleCtx(S, F, PD_P, item, known_bytes=known_magics(S), reads=["RMagic", "RSalt"])
+    with S.section(item + ":scrypt call"):
+        costs = [S.val("lib_scrypt_n"), S.val("lib_scrypt_r"), S.val("lib_scrypt_p")]
+        sc = F.one_call("scrypt", item + ":scrypt", count=1)
+        need(len(sc.args) == 6, item + ":scrypt arity")
+        w = sc.where()
+        pat = "role:scrypt call of pass_decrypt"
+        ok = all(sc.is_const_expr(2 + k) and sc.const(2 + k, item) == costs[k] for k in range(3))
+        S.put("dec_scrypt_args_const", 1 if ok else 0, pat, w)
+        S.put("dec_scrypt_len", sc.const(5, item + ":scrypt len"), pat, w)
+        S.put("dec_scrypt_roles", R.roles_of_call(sc, 6), pat, w)
+    with S.section(item + ":decrypt_chunks call"):
+        cs = S.val("lib_chunk_size")
+        dc = F.one_call("decrypt_chunks", item + ":decrypt_chunks", count=1)
+        need(len(dc.args) == 5, item + ":decrypt_chunks arity")
+        w = dc.where()
+        pat = "role:decrypt_chunks call of pass_decrypt"
+        S.put("dec_pass_cs_is_const", 1 if (dc.is_const_expr(4) and dc.const(4, item) == cs) else 0, pat, w)
+        S.put("dec_pass_chunks_roles", R.roles_of_call(dc, 5), pat, w)
+    with S.section(item + ":valid_file_format call"):
+        vf = F.one_call("valid_file_format", item + ":valid_file_format", count=1)
+        S.put("dec_pass_format_roles", R.roles_of_call(vf, 1), "role:valid_file_format call of pass_decrypt", vf.where())
 
 
 def run(S):
-    files_items(S)
+    for (name, f) in (("encrypt.rs:magic constants", magic_items), ("encrypt.rs:key_encrypt", key_encrypt_items),
+                      ("encrypt.rs:pass_encrypt", pass_encrypt_items), ("encrypt.rs:encrypt_chunks", encrypt_chunks_items),
+                      ("decrypt.rs:valid_file_format", valid_file_format_items), ("decrypt.rs:key_decrypt", key_decrypt_items),
+                      ("decrypt.rs:pass_decrypt", pass_decrypt_items), ("decrypt.rs:decrypt_chunks", decrypt_chunks_items)):
+        with S.section(name):
+            f(S)
